@@ -113,12 +113,7 @@ def run_rfa_check(pid, rule, extra_cases, negatives, nontrivial, tags=None, mc=T
             c.count_nontrivial(json.dumps(case_of_event(full), sort_keys=True) if full["fn"] != "funfit" else json.dumps([full[k] for k in ("x0", "x1", "x", "y0", "y1", "e")] + [full.get("e_f")]))
     if not c.replay_path:
         for pred, mut, prefix in negatives:
-            src = next((e for e in c.events if pred(e)), None)
-            if src is None:
-                raise RuntimeError("no event for negative control " + prefix)
-            e = copy.deepcopy(src)
-            mut(e)
-            c.add_negative(e, prefix)
+            c.negative_from(c.events, pred, mut, prefix)
     c.rule = rule
     c.coverage_extra = {"lattice_cases_from_tlc": lattice, "harness_originated_cases": len(cases) - lattice}
     c.assumptions = ["TLC 1.8, CommunityModules Json/IOUtils", "float results projected to 1e-9 fixed point; lattice inputs are exact floats",
